@@ -47,6 +47,11 @@ def _check_uuid(uuid_str, spec_version, interoperability):
 
     uuid_obj = uuid.UUID(uuid_str)
 
+    # uuid.UUID() also reads bare hex digits, a "urn:uuid:" prefix and
+    # surrounding braces; a STIX identifier carries the RFC 4122 text only.
+    if str(uuid_obj) != uuid_str.lower():
+        return False
+
     ok = uuid_obj.variant == uuid.RFC_4122
     if ok and spec_version == "2.0":
         ok = uuid_obj.version == 4
